@@ -266,8 +266,21 @@ func runE2(r *vk.Run, budget time.Duration) *e2stats {
 		fmt.Printf("E2 %-45s schedules=%d by-preemptions=%v distinct-outcomes=%d\n", scs[i].Name, res.Executions, res.ByCost, len(res.Outcomes))
 	}
 	st.cov = per
-	if len(st.outcomes) < 2*len(per)-2 && done == len(scs) && nviol == 0 {
-		vk.Fatalf("e2: only %d distinct outcomes over %d scenarios: the threads do not interact", len(st.outcomes), len(per))
+	// non-vacuity: in a scenario whose outcome depends on who wins the race the schedules must produce >= 2 outcomes;
+	// scenarios in which a pre-pooled spend must always survive legitimately have one. At least a quarter (and at
+	// least two) of the scenarios must be schedule-sensitive.
+	sensitive := 0
+	for _, res := range results {
+		if res != nil && len(res.Outcomes) >= 2 {
+			sensitive++
+		}
+	}
+	need := len(per) / 4
+	if need < 2 {
+		need = 2
+	}
+	if sensitive < need && done == len(scs) && nviol == 0 {
+		vk.Fatalf("e2: only %d of %d scenarios have schedule-dependent outcomes: the threads do not interact", sensitive, len(per))
 	}
 	return st
 }
